@@ -280,6 +280,7 @@ def part_a(ctx, drv, flavours):
 
 def exec_part_a(ctx, drv, exes, cases, add_sweep=True):
     total_dis = 0
+    heavy = None          # case lines that obtain > 256 MB in total (measured on the first, non-ASan, flavour)
     for fl, exe in exes.items():
         rc, out, err = sh2([exe], input=b"sizes\n", env=ENV, timeout=60)
         cfgline = out.decode().strip()
@@ -293,9 +294,16 @@ def exec_part_a(ctx, drv, exes, cases, add_sweep=True):
             rc, out, err = sh2([exe], input=(cfgline + "\nseq none | " + " ; ".join(SWEEP_OPS) + "\n").encode(), env=ENV, timeout=60)
             nm = len(EV.findall(out.decode()))
             mine += sweep_cases(ctx, nm)
-        if fl.startswith("asan") and not ctx.thorough():
-            # ~1 GB reservations are slow under ASan: keep a third of the random stream there
-            mine = [c for i, c in enumerate(mine) if c[1].startswith("sweep") or c[1] == "corpus" or i % 3 == 0]
+        if fl.startswith("asan") and heavy is not None:
+            # ~1 GB reservations cost ~50 ms each under ASan (shadow poisoning): keep only a few of those cases there
+            budget = [ctx.n(40, 400)]
+
+            def keep(c):
+                if c[0] not in heavy:
+                    return True
+                budget[0] -= 1
+                return budget[0] >= 0
+            mine = [c for c in mine if keep(c)]
         lines = [cfgline] + [c[0] for c in mine]
         outs, crashes = run_lines(exe, lines)
         for idx, rc, err in crashes:
@@ -314,6 +322,11 @@ def exec_part_a(ctx, drv, exes, cases, add_sweep=True):
         if mouts is not None and mouts[0] != "cfg ok":
             ctx.broken_tie("constants:" + fl, "constants compiled into the library differ from the translator's (gen_MemConst): %s  [%s]" % (mouts[0], cfgline))
         dis = 0
+        if heavy is None and not fl.startswith("asan"):
+            heavy = set()
+            for i, (line, kind) in enumerate(mine):
+                if outs[i + 1] and sum(int(sz) for sz, rid in EV.findall(outs[i + 1]) if rid != "F") > (256 << 20):
+                    heavy.add(line)
         for i, (line, kind) in enumerate(mine):
             impl = outs[i + 1]
             if impl is None:
@@ -636,10 +649,14 @@ def run(ctx):
     fla = ["simd", "plain", "asan"]
     flb = ["asan", "simd"] if not ctx.thorough() else ["asan", "simd", "plain"]
     exes, cases = part_a(ctx, drv, fla)
+    ctx.log("(a) memory-manager correspondence: %d generated sequences x %s" % (len(cases), fla))
     exec_part_a(ctx, drv, exes, cases)
+    ctx.log("(a) done: model/impl disagreements = %s" % ctx.cov.get("model_impl_disagreements"))
     built = part_b(ctx, flb)
     exec_part_b(ctx, built, drv)
+    ctx.log("(b) fault-injection catalogue done: %s scenarios" % ctx.cov.get("fi_scenarios"))
     exec_part_c(ctx, built, drv)
+    ctx.log("(c) limits done")
     ctx.cov["rule"] = ("(a) op sequences over the 12 client operations of jpeg_memory_mgr: random mixes with sizes at the slop / "
                        "MAX_ALLOC_CHUNK / 2^64 boundaries, virtual-array scripts with and without max_memory_to_use, SIZE_MAX-guard scripts, "
                        "and one fixed script swept over every failing malloc index (single, persistent, pairs); a case is distinct when its "
